@@ -152,6 +152,8 @@ func init() {
 			switch {
 			case r == "x":
 				return nil, bt.ErrNoUTXO
+			case r == "w": // exhaustion reported the idiomatic way: the sentinel wrapped with context
+				return nil, fmt.Errorf("wallet drained after %d calls: %w", k, bt.ErrNoUTXO)
 			case r == "e":
 				return nil, errSupplier
 			case r == "b":
@@ -448,7 +450,7 @@ func genC12(e *emitter, tier string, seed uint64) {
 		for s := 0; s < steps; s++ {
 			switch {
 			case r.chance(12):
-				hist = append(hist, "x")
+				hist = append(hist, []string{"x", "w"}[r.n(2)])
 			case r.chance(6):
 				hist = append(hist, "e")
 			case r.chance(12):
